@@ -332,6 +332,16 @@ func utilSession(tag byte, n int) func(l logger) {
 		db := newDst(l)
 		berr := wsutil.ControlHandler{Src: bytes.NewReader(bad), Dst: db, State: ws.StateClientSide, DisableSrcCiphering: true}.Handle(ws.Header{Fin: true, OpCode: ws.OpClose, Length: int64(len(bad))})
 		l.Logf("bad-close err=%v reply=%s", berr, framesLog(db.Bytes()))
+		// a control writer from the plain constructor, used for two frames (Flush in between),
+		// with pool traffic of the same size class in between
+		dcw := newDst(l)
+		ctlw := wsutil.NewControlWriter(dcw, ws.StateServerSide, ws.OpPing)
+		ctlw.Write(fill(50, tag+13))
+		ctlw.Flush()
+		wsutil.WriteClientMessage(newDst(l), ws.OpBinary, fill(100, tag+14))
+		ctlw.Write(fill(60, tag+15))
+		ctlw.Flush()
+		l.Logf("control-writer-twice %s", framesLog(dcw.Bytes()))
 		// a writer over a buffer the application owns (its capacity happens to be a pool class),
 		// flushing disabled, and a message that outgrows it; the application keeps using its
 		// buffer for something else until the end of the session
